@@ -596,6 +596,36 @@ theorem acceptData_keeps (c : RConn) (s : RStream) (sid len L : Nat) (hi : Inflo
     exact Keeps.refl c hi hu
 
 open H2Rx in
+/-- DATA arriving after the handler closed the request body: the whole frame returns to the connection window -/
+theorem discardData_keeps (c : RConn) (s : RStream) (sid len L : Nat) (hi : InflowInv c.inflow) (hu : BUniq c)
+    (hfs : findS c sid = some s) (hL0 : 0 < L) (hL : (L : Int) ≤ 4294967295)
+    (c' : RConn) (r : List Rx) (hacc : discardData c s len L = some (c', r)) (hnp : Rx.panic ∉ r) : Keeps c c' := by
+  unfold discardData at hacc
+  by_cases hok : (takeInflows c.inflow s.inflow L).2.2 = true
+  · simp only [hok, Bool.not_true, Bool.false_eq_true, if_false, Option.some.injEq] at hacc
+    obtain ⟨t1, t2, t3⟩ := takeInflows_spec c.inflow s.inflow L hi ⟨by omega, hL⟩ hok
+    generalize hc1 : setS { c with inflow := (takeInflows c.inflow s.inflow L).1 }
+      { s with inflow := (takeInflows c.inflow s.inflow L).2.1, bodyBytes := s.bodyBytes + len } = c1 at hacc
+    have c1_in : c1.inflow = (takeInflows c.inflow s.inflow L).1 := by rw [← hc1]; rfl
+    have c1_bod : c1.bodies = c.bodies := by rw [← hc1]; rfl
+    have c1_held : held c1 = held c := by
+      rw [← hc1, held_setS]; exact held_inflow c _
+    have hu1 : BUniq c1 := by unfold BUniq; rw [c1_bod]; exact hu
+    have hi1 : InflowInv c1.inflow := by rw [c1_in]; exact t1
+    have hnp1 : Rx.panic ∉ (connRefund c1 L).2 := by rw [hacc]; exact hnp
+    obtain ⟨r1, r2, r3, r4, _⟩ := connRefund_spec c1 L hi1 hnp1
+    rw [hacc] at r1 r2 r3 r4
+    simp only at r1 r2 r3 r4
+    have hh : held c' = held c1 := by
+      unfold held; rw [r4]; apply heldOf_congr; intro x; unfold present findS; rw [r3]
+    refine ⟨r1, by unfold BUniq; rw [r4]; exact hu1, ?_⟩
+    rw [r2, hh, c1_held]
+    have : cred c1 = cred c - L := by unfold cred; rw [c1_in, t2, t3]; omega
+    rw [this]; omega
+  · have : (takeInflows c.inflow s.inflow L).2.2 = false := by simpa using hok
+    simp [this] at hacc
+
+open H2Rx in
 theorem endStream_keeps (c : RConn) (sid : Nat) (hi : InflowInv c.inflow) (hu : BUniq c) : Keeps c (endStream c sid) := by
   unfold endStream markEnded markHalfClosed
   -- first the stream's state, then the body's `ended` flag: neither touches counters, ids or buffered bytes
@@ -750,6 +780,22 @@ theorem rx_step_keeps (c : RConn) (e : RxEv) (hi : InflowInv c.inflow) (hu : BUn
           · rw [if_pos hdl] at hnp ⊢
             exact chargeReturn_keeps c sid _ _ hi hu hL (hafterErr _) hnp
           · rw [if_neg hdl] at hnp ⊢
+            by_cases hbc : (bodyClosed c sid && decide (len > 0)) = true
+            · rw [if_pos hbc] at hnp ⊢
+              have hlen0 : 0 < len := by
+                have := (Bool.and_eq_true _ _).mp hbc
+                simpa using this.2
+              cases hdd : discardData c s len (len + (if padded = true then pad + 1 else 0)) with
+              | none =>
+                rw [hdd] at hnp
+                simp only at hnp ⊢
+                exact streamErr_keeps c sid _ hi hu hnp
+              | some v =>
+                obtain ⟨c', r⟩ := v
+                rw [hdd] at hnp
+                simp only at hnp ⊢
+                exact discardData_keeps c s sid len _ hi hu hs (by omega) hL c' r hdd hnp
+            rw [if_neg hbc] at hnp ⊢
             cases hacc : acceptData c s sid len (len + (if padded = true then pad + 1 else 0)) with
             | none =>
               rw [hacc] at hnp
@@ -785,10 +831,14 @@ theorem rx_step_keeps (c : RConn) (e : RxEv) (hi : InflowInv c.inflow) (hu : BUn
         · rename_i hret
           simp only [hret] at hnp
           split
-          · split <;> exact Keeps.refl c hi hu
-          · rename_i hb0
-            simp only [hb0, if_false] at hnp
-            exact noteRead_keeps c b sid _ hi hu hb (Nat.min_le_right _ _) hnp
+          · exact Keeps.refl c hi hu
+          · rename_i hcl
+            simp only [hcl] at hnp
+            split
+            · split <;> exact Keeps.refl c hi hu
+            · rename_i hb0
+              simp only [hb0, if_false] at hnp
+              exact noteRead_keeps c b sid _ hi hu hb (Nat.min_le_right _ _) hnp
     | hret sid =>
       simp only at hnp ⊢
       cases hb : findB c sid with
@@ -828,6 +878,27 @@ theorem rx_step_keeps (c : RConn) (e : RxEv) (hi : InflowInv c.inflow) (hu : BUn
             · rename_i hop
               simp only [hop, if_false] at hnp
               exact k0.trans (closeStream_keeps c1 sid k0.inflow k0.uniq hnp)
+    | hclose sid =>
+      simp only at hnp ⊢
+      cases hb : findB c sid with
+      | none => simp only; exact Keeps.refl c hi hu
+      | some b =>
+        simp only
+        split
+        · exact Keeps.refl c hi hu
+        · -- marking the body as closed changes nothing in the ledger
+          have hbid := findB_id c sid b hb
+          have hf : findB c ({ b with closed := true } : Body).id = some b := by show findB c b.id = some b; rw [hbid]; exact hb
+          have hh := held_setB c b { b with closed := true } hu hf
+          have e0 : (if present c ({ b with closed := true } : Body).id = true
+              then ((({ b with closed := true } : Body).buffered : Nat) : Int) - (b.buffered : Int) else 0) = 0 := by
+            split
+            · show ((b.buffered : Nat) : Int) - b.buffered = 0; omega
+            · rfl
+          rw [e0] at hh
+          exact ⟨hi, by unfold BUniq; rw [bodies_ids_setB]; exact hu, by
+            have : cred (setB c { b with closed := true }) = cred c := rfl
+            rw [this, hh]; omega⟩
 
 open H2Rx in
 /-- `c'` has the same body ids as `c` and no stream that `c` did not have -/
@@ -911,6 +982,20 @@ theorem sub_acceptData (c : RConn) (s : RStream) (sid len L : Nat) (c' : RConn) 
     rw [← h.1]; exact Sub.refl c
 
 open H2Rx in
+theorem sub_discardData (c : RConn) (s : RStream) (len L : Nat) (c' : RConn) (r : List Rx)
+    (h : discardData c s len L = some (c', r)) : Sub c c' := by
+  unfold discardData at h
+  split at h
+  · cases h
+  · simp only [Option.some.injEq] at h
+    have hc' : c' = (connRefund (setS { c with inflow := (takeInflows c.inflow s.inflow L).1 }
+      { s with inflow := (takeInflows c.inflow s.inflow L).2.1, bodyBytes := s.bodyBytes + len }) L).1 := by rw [h]
+    rw [hc']
+    refine Sub.trans (b := setS { c with inflow := (takeInflows c.inflow s.inflow L).1 }
+      { s with inflow := (takeInflows c.inflow s.inflow L).2.1, bodyBytes := s.bodyBytes + len }) ?_ (sub_connRefund _ _)
+    exact ⟨rfl, fun x hx => by rw [present_setS] at hx; exact hx⟩
+
+open H2Rx in
 theorem sub_endStream (c : RConn) (sid : Nat) : Sub c (endStream c sid) := by
   have a : Sub c (markHalfClosed c sid) := by
     unfold markHalfClosed
@@ -980,12 +1065,17 @@ theorem rx_step_bodies (c : RConn) (e : RxEv) (h : HasBodies c) : HasBodies (ste
         · split
           · exact h.sub (sub_chargeReturn c sid _ _ (fun x => sub_streamErr x sid _))
           · split
-            · exact h.sub (sub_streamErr c sid _)
-            · rename_i c' r hacc
-              have s1 := sub_acceptData c _ sid len _ c' r hacc
-              split
-              · exact h.sub (s1.trans (sub_endStream c' sid))
-              · exact h.sub s1
+            · split
+              · exact h.sub (sub_streamErr c sid _)
+              · rename_i v hdd
+                exact h.sub (sub_discardData c _ len _ v.1 v.2 hdd)
+            · split
+              · exact h.sub (sub_streamErr c sid _)
+              · rename_i c' r hacc
+                have s1 := sub_acceptData c _ sid len _ c' r hacc
+                split
+                · exact h.sub (s1.trans (sub_endStream c' sid))
+                · exact h.sub s1
     | rst sid =>
       simp only
       split
@@ -998,8 +1088,10 @@ theorem rx_step_bodies (c : RConn) (e : RxEv) (h : HasBodies c) : HasBodies (ste
       · split
         · exact h
         · split
-          · split <;> exact h
-          · exact h.sub (sub_noteRead c _ sid _)
+          · exact h
+          · split
+            · split <;> exact h
+            · exact h.sub (sub_noteRead c _ sid _)
     | hret sid =>
       simp only
       split
@@ -1012,6 +1104,13 @@ theorem rx_step_bodies (c : RConn) (e : RxEv) (h : HasBodies c) : HasBodies (ste
           · split
             · exact h.sub (s0.trans (sub_closeStream _ sid))
             · exact h.sub (s0.trans (sub_closeStream _ sid))
+    | hclose sid =>
+      simp only
+      split
+      · exact h
+      · split
+        · exact h
+        · exact h.sub (sub_setB c _)
 
 open H2Rx in
 /-- an event the scheduler interface and the framer can deliver in state `c`: a new request stream has a fresh id,
